@@ -318,6 +318,13 @@ class Runner:
             if self.options.stop_on_error and (self.failures or self.errors):
                 break
 
+        if (should_resume and self.options.processes <= 1 and
+                self.options.stop_on_error and
+                (self.failures or self.errors)):
+            # A sequential run stops on the first error, also when the
+            # remaining layers would have to run in subprocesses.
+            should_resume = False
+
         if should_resume:
             if layers_to_run:
                 self.ran += resume_tests(
@@ -781,6 +788,11 @@ def resume_tests(script_parts, options, features, layers, failures, errors,
     # Get an object that (only) accepts bytes
     stdout = _get_output_buffer(sys.stdout)
     while ready_threads or running_threads:
+        if (options.stop_on_error and options.processes <= 1 and
+                (failures or errors)):
+            # Layers resumed one after the other: stop on the first error
+            # like a run in a single process does.
+            del ready_threads[:]
         while len(running_threads) < options.processes and ready_threads:
             thread = ready_threads.pop(0)
             thread.start()
